@@ -58,7 +58,7 @@ def gen_case(rng):
     d = kgen.gen_dataset(rng, opts)
     inj = []
     kinds = ['ghost_record', 'wrong_kind_record', 'ghost_traj', 'ghost_rig_member', 'rig_collision', 'orphan_feature',
-             'missing_feature', 'ghost_obs_type', 'ghost_obs_image', 'ghost_obs_other_type', 'ghost_match']
+             'missing_feature', 'othercase_feature', 'linked_subdir', 'ghost_obs_type', 'ghost_obs_image', 'ghost_obs_other_type', 'ghost_match']
     for k in kinds:
         if (k == 'ghost_obs_other_type' and cross) or (k != 'ghost_obs_other_type' and rng.random() < 0.25):
             inj.append([k, rng.randrange(10 ** 6)])
@@ -115,6 +115,28 @@ def inject(case, root):
                 p = os.path.join(root, 'reconstruction', 'keypoints', ty, rng.choice(ims) + '.kpt')
                 if os.path.exists(p):
                     os.remove(p)
+        elif kind == 'othercase_feature' and d['keypoints']:
+            # the data file of a listed image is missing, a file spelled with another case of the extension stands there
+            ty = rng.choice(list(d['keypoints']))
+            ims = d['keypoints'][ty]['images']
+            if ims and 'keypoints' not in case['tar']:
+                p = os.path.join(root, 'reconstruction', 'keypoints', ty, rng.choice(ims) + '.kpt')
+                if os.path.exists(p):
+                    os.rename(p, p[:-4] + '.KPT')
+        elif kind == 'linked_subdir':
+            # a folder of a feature type moved elsewhere and replaced by a symbolic link: every data file still exists
+            for fk in ('keypoints', 'descriptors', 'global_features'):
+                if fk in case['tar'] or not d.get(fk):
+                    continue
+                for ty in d[fk]:
+                    tdir = os.path.join(root, 'reconstruction', fk, ty)
+                    subs = sorted(x for x in os.listdir(tdir) if os.path.isdir(os.path.join(tdir, x)) and not os.path.islink(os.path.join(tdir, x)))
+                    if subs:
+                        sub = rng.choice(subs)
+                        store = os.path.join(root, '_store_%s_%s_%s' % (fk, ty, sub))
+                        if not os.path.exists(store):
+                            shutil.move(os.path.join(tdir, sub), store)
+                            os.symlink(store, os.path.join(tdir, sub))
         elif kind == 'ghost_obs_type' and d['observations'] is not None:
             append_line(os.path.join(root, 'reconstruction', 'observations.txt'), '0, ghost_type, img00.jpg, 3')
         elif kind == 'ghost_obs_image' and d['observations'] is not None and d['keypoints']:
@@ -140,6 +162,17 @@ def inject(case, root):
     else:
         lines[0] = f'# kapture format: {case["version"]}'
     open(sp, 'w').write('\n'.join(lines))
+
+
+def disk_feature_names(tdir, ext):
+    """ the image names whose data file EXISTS below a feature folder, by the format's rule <image name><ext> (exact spelling of
+    the extension; folders that are symbolic links are folders): written without any kapture code """
+    names = []
+    for dp, _, fns in os.walk(tdir, followlinks=True):
+        for fn in fns:
+            if fn.endswith(ext) and os.path.exists(os.path.join(dp, fn)):
+                names.append(os.path.relpath(os.path.join(dp, fn), tdir)[:-len(ext)].replace(os.sep, '/'))
+    return sorted(names)
 
 
 def dir_view(root, tar_handlers):
@@ -181,7 +214,7 @@ def dir_view(root, tar_handlers):
             if th is not None:
                 names = sorted(kf.image_ids_from_feature_tar(cls, th))
             else:
-                names = sorted(kf.image_ids_from_feature_dirpath(cls, ty, root))
+                names = disk_feature_names(os.path.join(kdir, ty), ext)
             coll.append([ty, names])
         v[kind] = coll
     mdir = os.path.join(root, 'reconstruction', 'matches')
@@ -383,7 +416,7 @@ def oracle(case):
                 return {'signature': 'dangling-observation', 'detail': f'({idx},{kt},{img},{fid})'}
     # completeness: the original valid dataset is still there (injections only add dangling things or remove feature files)
     O = r['orig']
-    removed_feature = any(k == 'missing_feature' for k, _ in case['inject'])
+    removed_feature = any(k in ('missing_feature', 'othercase_feature') for k, _ in case['inject'])
     for k in ('sensors',):
         if O[k] != L[k]:
             return {'signature': 'lost:sensors', 'detail': f'{O[k]} -> {L[k]}'}
